@@ -31,6 +31,21 @@ add("C23", "TLC exhaustive on AllReduce.tla + TLC on message programs extracted 
     "communicator with blocking sends (bit-identical to the single-process sum).",
     TRUST + "the simulated communicator (no libmpi in the sandbox): in-order delivery per pair, correct collectives.")
 
+add("C07", "TLC exhaustive on FieldImmut.tla + replay of TLC behaviours into real Field/AnyArray/NumPy objects + trace validation (FieldImmutTrace.tla)",
+    "Array objects, AnyArray wrappers and Fields are modelled with their own write flags and buffer versions (FieldImmut.tla); TLC checks "
+    "Immutable and Protected over all histories of <=7 (quick) / <=9 (thorough) operations (every public constructor, every handle, views, "
+    "five kinds of writes through arrays and three through wrappers). Every history TLC emits (exhaustive to depth 4/5, simulated to depth 10) is "
+    "replayed on the real objects and every live field and every operator built from one is compared with its construction snapshot after every "
+    "step; a seeded random driver of the real objects is validated against the spec in the other direction.",
+    TRUST + "writable aliases created before construction are outside the quantifier.")
+add("C21", "TLC exhaustive on RandomCtx.tla (action properties) + behaviour replay into nifty.cl.random + trace validation of drivers and of the library's own RNG use + ExecStrategy.tla configuration runs",
+    "The RNG stack (seed identities, spawn counters, draw positions, open contexts, getState/setState) is specified in RandomCtx.tla; TLC checks that "
+    "leaving a context normally or by an exception restores the previous generator exactly, for all histories of <=5/6 operations. TLC behaviours are "
+    "replayed on the real module (projection, bit-generator state and reference draws compared); event traces recorded from seeded drivers with real "
+    "with-blocks and from SampledKLEnergy / optimize_kl are validated by RandomCtxTrace.tla. ExecStrategy.tla enumerates the valid (map, JIT, process) "
+    "configurations of a JAX VI run; the harness runs a covering selection: bit-identical for repeats and fresh processes, 1e-8 across maps/JIT.",
+    TRUST + "reference draws come from NumPy generators built from the seed identity alone.")
+
 
 def main():
     props = [json.loads(l) for l in open(os.path.join(HERE, "properties.jsonl"))]
